@@ -63,16 +63,30 @@ def _post(ctx):
         unsound_hints=[r["v"]["unsound_hint"] for r in recs if r.get("t") == "stat" and isinstance(r.get("v"), dict) and "unsound_hint" in r["v"]][:12],
         generated_key_theorems_closed=sum(out.count("Closed under the global context") for _, (ok, out) in res.items()),
     )
+    # pruning on the interpreter of the whole engine: the side condition hints_sound_b of Pem_prune_transparent (Props/C13.v) on every
+    # dumped graph + the theorem instantiated (coq/gen/PemPrune_<d>.v), and - on the recorded real parses of a few dialects - the
+    # interpreter against the real parser, the token premise and the reference twin (pruning off) against the real pruning parser
+    import cpem
+    if ctx["tier"] == "thorough":
+        case_d = DIALECTS
+    else:   # quick: one dialect, rotating with the seed (the reference twin runs without pruning: about twice the cost of the replay itself)
+        case_d = [DIALECTS[ctx["seed"] % len(DIALECTS)]]
+    # quick: at most 15 recorded parses, the reference twin on every one of them
+    cpem.pem_stage(ctx, dialects=DIALECTS, with_cases=True, hints_sound=True, case_dialects=case_d,
+                   max_cases=(None if ctx["tier"] == "thorough" else 15), prune_stride=1)
 
 
 CFG = dict(
     prop="C13", level="proof", harness="c13",
     props_files=["theories/Props/C13.v"], corr_file="theories/Corr/C13.v", corr_module="Corr.C13",
     groups={"lm": False, "prune": True}, show_fn={"prune": "model_prune"}, pre=_pre, post=_post, shard=250, harness_timeout=2400,
+    extra_targets=["theories/Corr/Pem.vo", "theories/Pem/NoPanicMon.vo", "theories/Pem/PruneMon.vo"],   # imported by the generated PemGrammar_<d>.v / PemPrune_<d>.v / Cases_PEM_* of the Pem stage
     design_ref="DESIGN.md 6.13",
     technique="Coq proof of cache and pruning transparency of the longest_match loop (memoisation invariant; pruned options are "
               "no-matches) + static key-injectivity obligation on the dumped grammar graphs + direct observation of parse trees "
-              "with the shortcuts switched off by cfg(sqruff_verif) hooks + replay of recorded longest_match calls on the model",
+              "with the shortcuts switched off by cfg(sqruff_verif) hooks + replay of recorded longest_match calls on the model "
+              "+ Coq proof of pruning transparency of the Gallina interpreter of the whole parser engine (hint soundness by induction on "
+              "fuel, one lemma per engine algorithm) with a decidable per-dialect side condition on the dumped grammar graphs",
     level_text="C13_longest_match_spec / C13_shortcuts_transparent are closed Coq theorems: for every option list, cache state "
                "satisfying the invariant and every sequence of calls, longest_match returns the same result under all four "
                "settings of {cache, pruning}, under H_mfn (match result is a function of (loc_key, cache_key) = key injectivity + "
@@ -80,11 +94,29 @@ CFG = dict(
                "(keys_injective_<d>, vm_compute over all possible options); the cache invariant is audited at run time on every "
                "cache hit of sampled parses; H_simple_sound and H_ctx are not provable from the grammar data alone and are "
                "covered by the direct on/off comparison of parse trees. The location key is an input of the model: that it identifies "
-               "(token, slice length) is monitored on every longest_match call of the audited parses (H_loc, blocking).",
+               "(token, slice length) is monitored on every longest_match call of the audited parses (H_loc, blocking). "
+               "Pruning is also proved transparent on the Gallina interpreter of the WHOLE parser engine (Pem.Model, validated against "
+               "the real parser on every run): Pem_hint_sound discharges H_simple_sound there - on a graph whose dumped hints pass the "
+               "decidable check hints_sound_b (every hint pruning can act on is justified by the hints of the node's children per the "
+               "rules of simple(); generated obligation pem_hints_sound per dialect, all 13 graphs) a node whose hint excludes the code "
+               "token at idx never matches, for every token array, oracle, fuel, slice and context - and Pem_prune_transparent: whenever "
+               "the reference run (pruning off, no SQLParseError swallowed by Ref.exclude) yields a match result, the pruned interpreter "
+               "yields the same, under the token premise toks_ok (monitored on recorded parses: it excludes numeric literals, see "
+               "level_note). The unpruned twin is the interpreter itself on tokens with p_fnw erased (Pem_np_prune_is_identity). "
+               "Four _refuted witnesses pin why each premise is there (too-small hint, NodeMatcher kind shortcut, error outcomes, the "
+               "first-token rule before repo fix 7c6e134).",
     level_note="Conditional theorem: H_ctx (the cache key omits the active terminators) is known not to hold in general and is "
                "observed only through the end-to-end comparison (13 dialects x corpus/cross-dialect/corrupted inputs x "
                "{cache off, prune off, both off, repeat, fresh dialect, 8 threads sharing a dialect}); the loop model is tied to "
-               "the code by replaying recorded calls. Behaviour classes for the key check use the derived Debug rendering.",
+               "the code by replaying recorded calls. Behaviour classes for the key check use the derived Debug rendering. "
+               "Interpreter theorem: (a) it speaks about outcomes ROk of the reference run only - equality on SQLParseError outcomes is "
+               "false in the model even with sound hints (Pem_error_outcomes_differ_refuted: a dropped Delimited would have asked a context "
+               "terminator that raises the error); (b) token premise T3: NodeMatcher::match_segments accepts a token that already carries "
+               "the node's kind whatever its grammar's hint says; one node kind is also a lexer token kind (numeric_literal: "
+               "QualifiedNumericLiteralSegment, hint {+,-}), so token arrays with a number are outside the theorem: there the pruned and "
+               "the unpruned MatchResult can differ structurally (postgres `SELECT a[1]`: bare one-token span vs Newtype numeric_literal) "
+               "while the trees are identical (observed by the tree comparison and counted by the monitor reference_twin_equals_real_root_match); "
+               "(c) the parse cache is not part of the interpreter.",
     rule="inputs: every dialect fixture (<= 2.5 kB quick / 6 kB thorough) under its own dialect, under 1 (quick) / 12 (thorough) "
          "other dialects, rule-fixture snippets under a random dialect, token-level corruptions (delete/duplicate/swap/insert "
          "keyword/truncate/split), hand-written stress inputs, slice-length straddles at 255/256/257 tokens; each parsed 6 ways "
@@ -120,7 +152,11 @@ CFG = dict(
         "prune-on trees; monitored, blocking: every reachable reference has the hint of the element it resolves to, every option of K "
         "survives pruning at its own shortest sentence and at every text its string parser accepts, an option dropped in a generated "
         "prune_options call does not match at that token; known exception kept as a diagnostic monitor: a NodeMatcher takes a token "
-        "that already has its kind without consulting the grammar the hint is computed from)",
+        "that already has its kind without consulting the grammar the hint is computed from; proved on the interpreter of the whole "
+        "engine as Pem_hint_sound under hints_sound_b, a generated obligation per dialect)",
+        "H_toks_ok (premise of Pem_prune_transparent, diagnostic monitor on recorded parses): a code token whose ASCII-upper-cased raw is a "
+        "string-parser template upper-cases to the same string under to_uppercase, its class types contain its type, and it does not carry "
+        "the kind of a NodeMatcher in scope whose hint lacks that kind (fails for numeric literals)",
         "H_loc: a location key identifies (token raw, working location, token type, slice length) within one parse (monitored, "
         "blocking: every longest_match call of the audited parses, including the big inputs beyond 2^16 locations)",
         "a parse that aborts in Dialect::ref (C14 known findings) has no tree; on/off differences where one side is such an abort are counted, not reported",
